@@ -28,6 +28,9 @@ PROVED = {
     'Account': ('account', 'Account', 'c16_src_Account', 'blk'),
     'ShardAccount': ('account', 'ShardAccount', 'c16_src_ShardAccount', 'blk'),
     'ValidatorSet': ('config', 'ValidatorSet', 'c16_src_ValidatorSet', 'blk'),
+    'ShardAccounts': ('block', 'ShardAccounts', 'c16_src_ShardAccounts', 'blk'),
+    'OldMcBlocksInfo': ('block', 'OldMcBlocksInfo', 'c16_src_OldMcBlocksInfo', 'blk'),
+    'BlockCreateStats': ('block', 'BlockCreateStats', 'c16_src_BlockCreateStats', 'blk'),
 }
 N_VALIDATE = {'BlockInfo': 16, 'ConsensusConfig': 12}
 
